@@ -325,7 +325,7 @@ func runC12(tier string) int {
 	// the property lifted over the control-flow program families: every program with (1) its whole body, (2) every
 	// block, (3) each single top-level statement (colon form) moved into the selected case of a poryswitch - selected
 	// directly or through '_' after an unselected case - must compile to exactly the output of the plain program
-	plans, swN := enginePlans(tier)
+	plans, swN := liftPlans(tier)
 	forEachEngineProgram(r, plans, swN, func(w int, p engineProgram) {
 		src := model.Print([]*model.Script{p.Script})
 		o := comp.Opts{Optimize: true, Switches: map[string]string{"PV": "SEL"}}
